@@ -23,6 +23,8 @@ def run(ctx):
                 bad.append({"host": h, "initial": cls, "final": {k: x[k] for k in ("ro", "src", "io", "sql", "ioerr", "sqlerr", "offline")}})
         sig = {"initial": sorted({"/".join(b["initial"].split("/")[2:4]) for b in bad}), "faulted": row["faulted"],
                "aggressive": row["aggressive"]}
+        if row.get("faultstmt"):
+            sig["fault"] = "%s@%s" % (row["faultstmt"], "stale" if row.get("faultat") in row["stale"] else "other")
         v.fail(name, sig, "after 16 rounds from initial classes %s (master %s): %s; stale %s offline-seen %s marked-seen %s; "
                "master key writes %s, decoy statements %s, self changes %s, resets %s (scenario %s)"
                % (row["classes"], row["scn"].split("-m")[-1][:12], bad or "master/safety clause", row["stale"], row["sawoffline"],
